@@ -416,6 +416,112 @@ func runC11(c *Ctx, r *Report) {
 	c.checkSiblingSwitches(r, "C11.R4", "map")
 	r.Floor("C11.R4", 2)
 
+	// R5: m + right: the pairs of the right operand are set over a copy of the left operand's
+	r.Rule("C11.R5", "merge precedence: in SmallMap.Append and BigMap.Append every Set call takes its key and value from an element of right.mapElements() (the right operand wins on equal keys) and every bulk copy into the result takes the receiver's pairs")
+	{
+		mapEls := map[*types.Func]bool{c.Fn("object", "SmallMap.mapElements"): true, c.Fn("object", "BigMap.mapElements"): true}
+		n5 := 0
+		for _, name := range []string{"SmallMap.Append", "BigMap.Append"} {
+			fn := c.SSAFn(c.Fn("object", name))
+			recv, right := fn.Params[0], fn.Params[1]
+			// which operand a pair value comes from
+			var origin func(v ssa.Value, depth int) string
+			origin = func(v ssa.Value, depth int) string {
+				if depth > 10 || v == nil {
+					return "?"
+				}
+				switch x := v.(type) {
+				case *ssa.Parameter:
+					if x == recv {
+						return "left"
+					}
+					if x == right {
+						return "right"
+					}
+				case *ssa.UnOp:
+					return origin(x.X, depth+1)
+				case *ssa.FieldAddr:
+					return origin(x.X, depth+1)
+				case *ssa.Field:
+					return origin(x.X, depth+1)
+				case *ssa.IndexAddr:
+					return origin(x.X, depth+1)
+				case *ssa.Index:
+					return origin(x.X, depth+1)
+				case *ssa.Slice:
+					return origin(x.X, depth+1)
+				case *ssa.Alloc:
+					// a spilled receiver (value receiver copied to a local)
+					for _, ref := range *x.Referrers() {
+						if st, ok := ref.(*ssa.Store); ok && st.Addr == ssa.Value(x) {
+							return origin(st.Val, depth+1)
+						}
+					}
+				case *ssa.Call:
+					if x.Common().IsInvoke() && x.Common().Method.Name() == "mapElements" {
+						return origin(x.Common().Value, depth+1)
+					}
+					if obj := calleeObj(x); obj != nil && mapEls[obj] && len(x.Common().Args) > 0 {
+						return origin(x.Common().Args[0], depth+1)
+					}
+				case *ssa.Extract:
+					return origin(x.Tuple, depth+1)
+				case *ssa.Next:
+					return origin(x.Iter, depth+1)
+				case *ssa.Range:
+					return origin(x.X, depth+1)
+				case *ssa.Phi:
+					o := ""
+					for _, e := range x.Edges {
+						oe := origin(e, depth+1)
+						if o == "" {
+							o = oe
+						} else if o != oe {
+							return "?"
+						}
+					}
+					return o
+				}
+				return "?"
+			}
+			eachInstr(fn, func(in ssa.Instruction) {
+				call, ok := in.(*ssa.Call)
+				if !ok {
+					return
+				}
+				cc := call.Common()
+				var args []ssa.Value
+				switch {
+				case cc.IsInvoke() && cc.Method.Name() == "Set":
+					args = cc.Args
+				case !cc.IsInvoke() && calleeObj(call) != nil && calleeObj(call).Name() == "Set" && len(cc.Args) == 3:
+					args = cc.Args[1:]
+				default:
+					// bulk copy: append(res.kv, X...) / copy(dst, X)
+					if bi, ok := cc.Value.(*ssa.Builtin); ok && (bi.Name() == "append" || bi.Name() == "copy") && len(cc.Args) == 2 {
+						if o := origin(cc.Args[1], 0); o == "right" {
+							n5++
+							r.Fail("C11.R5", ssaFuncName(fn), "bulk copy into the result takes the left operand's pairs", c.Pos(call.Pos()), "the result of + starts from the right operand's pairs: setting the left operand's pairs over them makes the left operand win on equal keys ({1:\"L\"} + {1:\"R\",...} gives \"L\")")
+						} else if o == "left" {
+							n5++
+							r.Ok("C11.R5", ssaFuncName(fn), "bulk copy into the result takes the left operand's pairs", c.Pos(call.Pos()))
+						}
+					}
+					return
+				}
+				if len(args) != 2 {
+					return
+				}
+				n5++
+				ok2 := origin(args[0], 0) == "right" && origin(args[1], 0) == "right"
+				r.Check(ok2, "C11.R5", ssaFuncName(fn), "Set in the merge loop takes key and value from the right operand", c.Pos(call.Pos()),
+					"a Set call in the merge takes its pair from "+origin(args[0], 0)+"/"+origin(args[1], 0)+" instead of the right operand: on equal keys the wrong side wins")
+			})
+		}
+		r.Floor("C11.R5", 4)
+		_ = n5
+	}
+
 	// shared C07.R9: the small representation never indexes past its capacity (thresholds and length field)
 	r.Rule("C07.R9", "(shared) fixed-capacity containers: length fields within capacity, index and slice bounds proven")
 	{
